@@ -88,7 +88,7 @@ class Check(CheckBase):
                         "inputs": "steps symbolic >= 1, rate/accel symbolic in [-(2^31-1), 2^31-1], accumulator symbolic in [0, 2^31) or 'clear'",
                         "code's own integers": "reversal tick and root ceilings concretised by solver-guided forking when |value| <= K+2, symbolic otherwise",
                         "legacy form": "negative step count with rate >= 0 (mirrored move), K = 1..4"},
-              "thorough": {"T*": "K = 1..16", "inputs": "as quick", "code's own integers": "as quick", "legacy form": "K = 1..8"}}
+              "thorough": {"T*": "K = 1..9 (K = 10 left one obligation undecided after 15 min; K = 14..16 needed 20-60 s per query)", "inputs": "as quick", "code's own integers": "as quick", "legacy form": "K = 1..6"}}
     outside = ["moves that need more ticks than the bound", "mp rounding of sqrt and of the root quotient at 103 bits (the exact root is an integer or at least 1/2^32 "
                "away from one while the rounding error is < 2^-38: paper argument)", "non-integer arguments"]
     stubs = ["mpmath: exact rationals; sqrt eliminated by squaring; ceil/floor of rationals with symbolic denominator = fresh integers with defining inequalities",
@@ -101,7 +101,7 @@ class Check(CheckBase):
         return d
 
     def cases(self, tier):
-        kmax, kleg = (6, 4) if tier == "quick" else (16, 8)
+        kmax, kleg = (6, 4) if tier == "quick" else (9, 6)
         cs = [{"label": "no-move", "kind": "nomove"}]
         for K in range(1, kmax + 1):
             for mode in ("clear", "given"):
